@@ -262,7 +262,7 @@ PROPS["C16"] = {
 }
 
 # --- T7 mirrors: digests of the C++ functions the hand-written models mirror (see translate/mirrors2lean.py)
-for _pid in ("C01", "C02", "C06", "C07", "C08", "C09", "C10", "C11", "C12", "C13", "C14", "C15", "C16", "C17", "C19"):
+for _pid in ("C01", "C02", "C03", "C06", "C07", "C08", "C09", "C10", "C11", "C12", "C13", "C14", "C15", "C16", "C17", "C19"):
     _P = PROPS[_pid]
     _P["translators"] = list(_P.get("translators", [])) + ["mirrors2lean"]
     _P["lean_targets"] = list(_P.get("lean_targets", [])) + ["JediVerif.Properties.Mirrors.%s" % _pid]
